@@ -256,6 +256,53 @@ func c20Check(c *hist.Case, r *evid.Rec) []evid.Disc {
 			if p.BlindAt(ce.AckStep) {
 				break
 			}
+			// the converse ("the same unacknowledged in-flight messages", no more): an exchange the subject explicitly
+			// completed on its last connection before the restart (it sent PUBACK, PUBCOMP or a PUBREC carrying a failure
+			// code for it there) is not sent again with the restored session, unless another transmission of the same
+			// message is still outstanding (seeded change C20-f: a refused QoS 2 message that stays in the store)
+			if last := lastBefore(run, cid, restart); last != nil {
+				completed := map[int]bool{}
+				for _, st := range run.Steps {
+					if st.A.Kind != "ack" || st.Skipped || st.Sent == nil || st.Peer != last.ID || st.Tag == 0 || st.I >= restart {
+						continue
+					}
+					switch {
+					case st.Sent.Type == refmqtt.PUBACK, st.Sent.Type == refmqtt.PUBCOMP, st.Sent.Type == refmqtt.PUBREC && st.Sent.ReasonCode >= 0x80:
+						completed[st.Tag] = true
+					}
+				}
+				for _, q := range run.Peers {
+					if q.CID == cid && q.OpenedAt < restart {
+						for _, in := range q.In {
+							delete(completed, in.Tag)
+						}
+					}
+				}
+				// delivered more than once before the restart (live copy and retained replay, resends): not judged
+				seen := map[int]int{}
+				for _, q := range run.Peers {
+					if q.CID == cid && q.OpenedAt < restart {
+						for _, pk := range q.Got {
+							if pk.Type == refmqtt.PUBLISH && pk.QoS > 0 && !pk.Dup {
+								seen[hist.TagOf(pk.Payload)]++
+							}
+						}
+					}
+				}
+				for tag := range completed {
+					if seen[tag] != 1 {
+						delete(completed, tag)
+					}
+				}
+				for i, pk := range p.Got {
+					if tag := hist.TagOf(pk.Payload); pk.Type == refmqtt.PUBLISH && p.GotStep[i] == ce.AckStep && completed[tag] {
+						ds = append(ds, evid.D("C20-completed-message-resent-after-restart", "step %d: %q resumed its session after the restart and was sent m%d again, an exchange it had completed on its last connection before the restart: %s", ce.Step, cid, tag, pk))
+					}
+				}
+				if len(completed) > 0 {
+					r.Label("completed-before-restart/judged")
+				}
+			}
 			for _, e := range owed {
 				// the session must not have been re-created between the message and the restart
 				if se := sessionCreatedAfter(m, cid, run.Tags[e.tag].Step, restart); se {
@@ -291,6 +338,17 @@ func c20Check(c *hist.Case, r *evid.Rec) []evid.Disc {
 	}
 	r.Label("backend/" + c.Cfg.Storage)
 	return withTranscript(ds, run)
+}
+
+// lastBefore: the subject's last connection opened before the restart
+func lastBefore(run *hist.Run, cid string, restart int) *hist.Peer {
+	var last *hist.Peer
+	for _, p := range run.Peers {
+		if p.CID == cid && p.OpenedAt < restart {
+			last = p
+		}
+	}
+	return last
 }
 
 // sessionCreatedAfter: did the model create a fresh session for cid (clean start, or reconnect after the session
@@ -374,7 +432,11 @@ func c20Gen(rt *rapid.T, backends []string) *hist.Case {
 		case 10, 11:
 			return connect(cl, rapid.IntRange(0, 3).Draw(rt, "clean") == 0, autoAck)
 		default:
-			return act(hist.Action{Kind: "ack", Client: cl, Index: rapid.IntRange(0, 3).Draw(rt, "idx")})
+			a := hist.Action{Kind: "ack", Client: cl, Index: rapid.IntRange(0, 3).Draw(rt, "idx")}
+			if versions[cl] == 5 && rapid.IntRange(0, 3).Draw(rt, "ack-failure") == 0 {
+				a.Reason = pick(rt, "ack-reason", []byte{0x80, 0x83, 0x97}) // ends the exchange like a success would
+			}
+			return act(a)
 		}
 	})
 	c.Actions = append(c.Actions, rapid.SliceOfN(action, 4, 22).Draw(rt, "actions")...)
